@@ -72,6 +72,11 @@ def cases(draw, exhaustive=False):
             st.tuples(st.just("remove"), st.lists(st.integers(0, 5), min_size=1, max_size=2, unique=True)),
             st.tuples(st.just("rename"), st.lists(st.tuples(st.integers(0, 5), st.integers(0, 7)), min_size=1, max_size=2, unique_by=lambda t: t[0])))),
         "exhaustive": exhaustive,
+        # pure functions of the model's objects called before the knock-outs (copies, reaction arithmetic, pickles, text
+        # forms): documented to leave their operands alone, so nothing below may depend on them (since seeded change C07-7)
+        "harmless": [] if exhaustive else draw(st.one_of(st.just([]), st.just([]), st.lists(
+            st.tuples(st.sampled_from(["copy_rxn", "copy_rxn", "mul", "add", "sub", "model_copy", "pickle_rxn", "text", "gene_copy"]),
+                      st.integers(0, 20), st.integers(0, 20)), min_size=1, max_size=3))),
     }
 
 
@@ -165,6 +170,28 @@ def run_order(case, order, ctx, classes):
     model = build.build_model(spec, case["path"])
     if case.get("rewrite"):
         spec, order = rewrite_rules(model, spec, case["rewrite"], order, classes)
+    if case.get("harmless") and len(model.reactions):
+        import pickle
+
+        for kind, i, j in case["harmless"]:
+            a, b = model.reactions[i % len(model.reactions)], model.reactions[j % len(model.reactions)]
+            if kind == "copy_rxn":
+                a.copy()
+            elif kind == "mul":
+                a * 2
+            elif kind == "add":
+                a + b
+            elif kind == "sub":
+                a - b
+            elif kind == "model_copy":
+                model.copy()
+            elif kind == "pickle_rxn":
+                pickle.loads(pickle.dumps(a))
+            elif kind == "gene_copy" and len(model.genes):
+                model.genes[i % len(model.genes)].copy()
+            else:
+                str(a), repr(a), a.build_reaction_string(), a.gene_name_reaction_rule
+        classes.add("~harmless-calls-first")
     route = case["route"]
     rxn_ko = None
     cm = model if case["context"] else None
